@@ -131,6 +131,9 @@ Boundaries ==
 \cup { <<Run("a", 3), Run(":", 1), Run("a", 2), Run("#", 1), Run(f, n)>> : f \in Fill, n \in {49, 50, 51} }   \* userset relation limit
 \cup { <<Run(f, n), Run(":", 1), Run("*", 1)>> : f \in Fill, n \in {253, 254, 255} }                          \* typed wildcard
 \cup { <<Run("a", 1)>>, <<Run(":", 1), Run("a", 1)>>, <<Run("a", 1), Run(":", 1)>> }                          \* object minimum
+\* one below every lower bound: the empty string, and strings one of whose parts is empty
+\cup { <<>>, <<Run(":", 1)>>, <<Run("#", 1)>>, <<Run("*", 1)>>, <<Run(":", 1), Run("*", 1)>>, <<Run("a", 1), Run(":", 1), Run("a", 1), Run("#", 1)>>,
+       <<Run("#", 1), Run("a", 1)>>, <<Run("a", 1), Run("#", 1), Run("a", 1)>>, <<Run(":", 1), Run("a", 1), Run("#", 1), Run("a", 1)>>, <<Run("a", 1), Run(":", 1), Run("#", 1), Run("a", 1)>> }
 BRec(rle) == LET s == Expand(rle, 1) IN [rec |-> "rle", rle |-> rle, n |-> Len(s), v |-> Verdicts(s)]
 
 BoundInit == st \in Boundaries /\ PrintT(ToJson(BRec(st)))
